@@ -202,7 +202,21 @@ structure WpIter where
   lge : Event
 deriving Repr
 
-/-- `wpIterator.init` -/
+/-- Strict decoding of the events area: what a server that *rejects what it cannot store faithfully* accepts — the header
+decodes, the write-level field text parses, exactly `count` events decode, every event's field text parses; the stored
+fields are the write-level ones followed by the event's own. `none` = reject. -/
+def strictLoop (parseKV : Bytes → Option Bytes) (wf : Bytes) : Nat → Bytes → Option (List Event)
+  | 0, _ => some []
+  | n+1, rest =>
+    match decodeEvent rest with
+    | .ok (k, we) =>
+      match parseKV we.fields with
+      | some ef => (strictLoop parseKV wf n (rest.drop k)).map (⟨we.ts, we.msg, wf ++ ef⟩ :: ·)
+      | none => none
+    | _ => none
+
+/-- `wpIterator.init`. If the source validates the whole packet first (regenerated fact `wpInitValidatesEvents`, the proposed
+repair of F20b/F20c) every announced event is decoded and its field text parsed before the iterator is handed out. -/
 def wpInit (parseKV : Bytes → Option Bytes) (buf : Bytes) : Out WpIter :=
   match rpcString buf with
   | .err => .err
@@ -218,7 +232,13 @@ def wpInit (parseKV : Bytes → Option Bytes) (buf : Bytes) : Out WpIter :=
       | .ok (n4, n) =>
         match parseKV flds with
         | none => .err
-        | some wf => .ok ⟨tags, wf, buf.drop (i1 + i2 + n4), i1 + i2 + n4, n, 0, false, ⟨0, [], []⟩⟩
+        | some wf =>
+          let it : WpIter := ⟨tags, wf, buf.drop (i1 + i2 + n4), i1 + i2 + n4, n, 0, false, ⟨0, [], []⟩⟩
+          if Generated.C01.wpInitValidatesEvents then
+            match strictLoop parseKV wf n it.rest with
+            | some _ => .ok it
+            | none => .err
+          else .ok it
 
 /-- `wpIterator.Get`: `none` = `io.EOF` (also on a decode error: "end of batch"). -/
 def wpGet (parseKV : Bytes → Option Bytes) (it : WpIter) : Out (WpIter × Option Event) :=
@@ -275,19 +295,8 @@ end Logrange.WireRT
 
 namespace Logrange.WireRT
 
-/-- SPEC decoder of a write packet: what a server that *rejects what it cannot store faithfully* accepts — the header
-decodes, the write-level field text parses, exactly `count` events decode, every event's field text parses; the stored
-fields are the write-level ones followed by the event's own. `none` = reject. -/
-def strictLoop (parseKV : Bytes → Option Bytes) (wf : Bytes) : Nat → Bytes → Option (List Event)
-  | 0, _ => some []
-  | n+1, rest =>
-    match decodeEvent rest with
-    | .ok (k, we) =>
-      match parseKV we.fields with
-      | some ef => (strictLoop parseKV wf n (rest.drop k)).map (⟨we.ts, we.msg, wf ++ ef⟩ :: ·)
-      | none => none
-    | _ => none
-
+/-- SPEC decoder of a write packet (its loop `strictLoop` is defined before `wpInit`, which uses it as the validation pass
+of the proposed repair): complete packet, every field text parses, write-level fields before own fields. `none` = reject. -/
 def wpDrainStrict (parseKV : Bytes → Option Bytes) (body : Bytes) : Option (Bytes × List Event) :=
   match wpInit parseKV body with
   | .ok it => (strictLoop parseKV it.flds it.recs it.rest).map (fun es => (it.tags, es))
